@@ -199,6 +199,26 @@ pub fn run_entry(entry: &str, text: &'static str) -> Obs {
             Ok((e, d))
         }))
         .0,
+        // printing (C12): the deep form is printed and the printed text parsed again; the result is judged against the
+        // meaning of the ORIGINAL text
+        "d_up" | "f2d_up" | "fwo2d_up" | "d_up_d" | "f2d_up_d" => lift(guarded(|| {
+            let deep = match entry {
+                "d_up" | "d_up_d" => Deep::parse(text)?,
+                "fwo2d_up" => Flat::parse_wo_compile(text)?.to_deepex()?,
+                _ => Flat::parse(text)?.to_deepex()?,
+            };
+            let printed: &'static str = Box::leak(deep.unparse().to_string().into_boxed_str());
+            if entry.ends_with("_d") {
+                let e = Deep::parse(printed)?;
+                let d = eval_of(&e)?;
+                Ok((Flat::from_deepex(e)?, d))
+            } else {
+                let e = Flat::parse(printed)?;
+                let d = eval_of(&e)?;
+                Ok((e, d))
+            }
+        }))
+        .0,
         "eval_str_f64" => opaque(guarded(|| exmex::eval_str::<f64>(text).map(|_| ()))),
         "eval_str_f32" => opaque(guarded(|| exmex::eval_str::<f32>(text).map(|_| ()))),
         "parse_f64" => opaque(guarded(|| follow_up_f64(exmex::parse::<f64>(text)?))),
